@@ -18,7 +18,7 @@ def _cond(s, cond):
         bid = s.body_id(data, gamma.kind_for_ct(ct), valid=(b != 4))
         et = s.etag_of_b.get(bid)
         out.append("etag:" + (et if et else '"never-issued-%d"' % b))
-    return out
+    return out or ["empty"]      # present, listing nothing
 
 
 def _cond_coll(cond):
